@@ -1,393 +1,3 @@
-// C17: resize and rehash never lose or duplicate elements for any hash functions.
-// SEQUENTIAL differential harness (one thread, no scheduler): long programs over 64 keys against the runner's exact
-// std::map model (every step) + full compare / bucket-table walk every 4 steps (no key lost, none stored twice, every
-// element in the bucket its hash selects, item counter exact). The hash functions are GENERATED: constant, k & m, k >> s,
-// k << s, k * odd, ~k, 7k+3, identity; tables, probe sets, thresholds and load factors start at their minimums.
-//   Cuckoo          hash TUPLES: one member is always injective on the key space (with every member non-injective a
-//                   CuckooSet legitimately resizes forever), the other one is free (degenerate allowed)
-//   Striped + load-factor policies         any hash (the number of resizes is bounded by the item count)
-//   Striped + single-bucket-size policies  injective hashes (a non-injective one makes every further insert double the table)
-//   SplitListSet    any hash, FeldmanHashSet  injective hashes (the hash IS the key there)
-// Growth guard: a case whose table exceeds 2^16 buckets is rejected (V_REJECT), counted in class "rejected_oversize".
-// The part over boost containers lives in rehash_boost.cpp (same code, other LOCKHASH_NO_* switches).
-#include "mapcommon_impl.h"
-#include "map_adapters.h"
-#ifndef REHASH_BOOST_PART
-#   define LOCKHASH_NO_STRIPED_BOOST
-#   define LOCKHASH_NO_STRIPED_INTRUSIVE
-#else
-#   define LOCKHASH_NO_CUCKOO
-#   define LOCKHASH_NO_STRIPED_STD
-#endif
-#include "fam_lockhash.h"
-
-#ifndef REHASH_BOOST_PART
-#include <cds/container/michael_list_hp.h>
-#include <cds/container/lazy_list_hp.h>
-#include <cds/container/split_list_set.h>
-#include <cds/container/feldman_hashset_hp.h>
-#endif
-
-using namespace mh;
-using namespace fam_lockhash;
-
-// cfg layout (after the runner's prefill / quiesce / hold)
-enum { CF_INIT = 3, CF_PROBE, CF_THR, CF_FREE_KIND, CF_FREE_PAR, CF_INJ_KIND, CF_INJ_PAR, CF_ORDER, CF_POLICY };
-
-namespace fam_lockhash {
-    static HashFn injective_member( int kind, int par )
-    {
-        HashFn h;
-        switch ( kind % 5 ) {
-        case 0: h.kind = HK_IDENT; break;
-        case 1: h.kind = HK_MUL; h.par = unsigned( par ); break;            // k * (2 par + 1)
-        case 2: h.kind = HK_NOT; break;
-        case 3: h.kind = HK_AFFINE; break;
-        default: h.kind = HK_SHL; h.par = unsigned( par % 4 ); break;       // k << 0..3
-        }
-        return h;
-    }
-    static HashFn free_member( int kind, int par )
-    {
-        HashFn h;
-        switch ( kind % 8 ) {
-        case 0: h.kind = HK_CONST; h.par = unsigned( par ); break;
-        case 1: h.kind = HK_AND; h.par = ( 1u << ( 1 + par % 3 )) - 1; break;      // k & 1 / 3 / 7
-        case 2: h.kind = HK_AND; h.par = 1; break;                                  // k & 1 (the suspected-defect shape, extra weight)
-        case 3: h.kind = HK_SHR; h.par = unsigned( 1 + par % 5 ); break;            // k >> 1..5
-        case 4: h.kind = HK_SHL; h.par = unsigned( par % 8 ); break;                // k << 0..7
-        case 5: h.kind = HK_MUL; h.par = unsigned( par ); break;
-        case 6: h.kind = HK_IDENT; break;
-        default: h.kind = HK_CONST; h.par = 0; break;
-        }
-        return h;
-    }
-
-    static bool low_bit_bijective( HashFn const& h )
-    {
-        return h.kind == HK_IDENT || h.kind == HK_MUL || h.kind == HK_NOT || h.kind == HK_AFFINE || ( h.kind == HK_SHL && h.par == 0 );
-    }
-
-    // variants named *_degenerate_tuple force the shapes the suspected CuckooSet::resize() defect needs
-    static bool g_force_degenerate = false;
-    static bool g_forbid_degenerate = false;
-
-    Params decode_params( Case const& c, ContKind kind )
-    {
-        Params p;
-        int init = cfg_at( c, CF_INIT, 0 ), probe = cfg_at( c, CF_PROBE, 0 ), thr = cfg_at( c, CF_THR, 0 );
-        HashFn inj = injective_member( cfg_at( c, CF_INJ_KIND, 0 ), cfg_at( c, CF_INJ_PAR, 0 ));
-        HashFn fre = free_member( cfg_at( c, CF_FREE_KIND, 0 ), cfg_at( c, CF_FREE_PAR, 0 ));
-        p.init = size_t( 1 + ( init & 3 ));                 // Cuckoo 1..4 (Striped clamps to 16)
-        p.probe = ( probe & 1 ) ? 4u : 2u;
-        p.thr = unsigned( thr % 4 );                        // 0 = library default (size - 1), 1..3 clamped below the probe-set size
-        p.rt_policy = size_t( 1 + cfg_at( c, CF_POLICY, 0 ) % 2 );
-        switch ( kind ) {
-        case CK_CUCKOO:
-            if ( g_force_degenerate && low_bit_bijective( fre )) {
-                // degenerate_tuple variants: the free member is never a bijection on the low bits
-                fre.kind = ( cfg_at( c, CF_FREE_PAR, 0 ) & 1 ) ? HK_AND : HK_CONST;
-                fre.par = ( fre.kind == HK_AND ) ? 1 : 0;
-            }
-            if ( g_forbid_degenerate ) {
-                // clean variants: both members are bijections on the low k bits for every k (ident, k * odd, ~k, 7k + 3):
-                // keys that share one probe set then share both, a class of keys never holds more than 2 * probe-set size
-                // elements and no other class competes for its slots
-                if ( !low_bit_bijective( fre ))
-                    fre = injective_member( cfg_at( c, CF_FREE_KIND, 0 ) + 1, cfg_at( c, CF_FREE_PAR, 0 ));
-                if ( fre.kind == HK_SHL )
-                    fre.par = 0;
-                if ( inj.kind == HK_SHL )
-                    inj.par = 0;
-            }
-            if ( cfg_at( c, CF_ORDER, 0 ) & 1 ) {
-                p.h[0] = inj;
-                p.h[1] = fre;
-            }
-            else {
-                p.h[0] = fre;
-                p.h[1] = inj;
-            }
-            p.degenerate = !low_bit_bijective( fre ) || !low_bit_bijective( inj );
-            break;
-        case CK_STRIPED_THRESHOLD:
-            p.h[0] = p.h[1] = inj;
-            break;
-        default:
-            p.h[0] = p.h[1] = fre;
-            p.degenerate = !fre.injective();
-            break;
-        }
-        note_class( p.degenerate ? "hash_degenerate" : "hash_injective" );
-        return p;
-    }
-
-    template <AdapterBase* ( *Make )( Case const& )>
-    AdapterBase* degenerate( Case const& c )
-    {
-        g_force_degenerate = true;
-        AdapterBase* a = Make( c );
-        g_force_degenerate = false;
-        return a;
-    }
-    template <AdapterBase* ( *Make )( Case const& )>
-    AdapterBase* well_behaved( Case const& c )
-    {
-        g_forbid_degenerate = true;
-        AdapterBase* a = Make( c );
-        g_forbid_degenerate = false;
-        return a;
-    }
-}
-
-#ifndef REHASH_BOOST_PART
-namespace {
-    // ---- SplitListSet / FeldmanHashSet (HP): minimal adapters, used unless a family header provides them -----------
-    struct sl_michael : cc::split_list::traits {
-        typedef cc::michael_list_tag ordered_list;
-        typedef LhHash<0> hash;
-        typedef cds::atomicity::item_counter item_counter;
-        struct ordered_list_traits : cc::michael_list::traits {
-            typedef ItemCmp compare;
-        };
-    };
-    struct sl_lazy : cc::split_list::traits {
-        typedef cc::lazy_list_tag ordered_list;
-        typedef LhHash<0> hash;
-        typedef cds::atomicity::item_counter item_counter;
-        struct ordered_list_traits : cc::lazy_list::traits {
-            typedef ItemLess less;
-        };
-    };
-    typedef cc::SplitListSet<HP, Item, sl_michael> SplitMichael;
-    typedef cc::SplitListSet<HP, Item, sl_lazy> SplitLazy;
-
-    template <typename Set>
-    AdapterBase* mk_split( Case const& c )
-    {
-        Params p = params() = decode_params( c, CK_OTHER );
-        // the bucket table may grow up to nItemCount / nLoadFactor buckets, it starts with 2 (dynamic bucket table)
-        size_t items = size_t( 8 ) << ( cfg_at( c, CF_INIT, 0 ) & 3 );      // 8..64
-        return new GuardedSetAdapter<Set, false>( c, items, p.rt_policy );
-    }
-
-    struct FItem : Item {
-        size_t hash;
-        FItem( int k, int t ) : Item( k, t ), hash( params().h[0].eval( k )) {}
-    };
-    struct FHashAccessor {
-        size_t const& operator()( FItem const& i ) const { return i.hash; }
-    };
-    struct feldman_traits : cc::feldman_hashset::traits {
-        typedef FHashAccessor hash_accessor;
-        typedef cds::atomicity::item_counter item_counter;
-    };
-    typedef cc::FeldmanHashSet<HP, FItem, feldman_traits> FeldmanSet;
-
-    // FeldmanHashSet: keyed by the hash value; update() REPLACES the stored object: f( new, old* )
-    struct FeldmanAdapter : AdapterBase {
-        FeldmanSet s;
-        int hold;
-        FeldmanAdapter( Case const& c, size_t head_bits, size_t array_bits ) : s( head_bits, array_bits ), hold( cfg_at( c, 2, 0 )) {}
-        static size_t H( int key ) { return params().h[0].eval( key ); }
-        bool supports( int op ) const override { return op != O_UNLINK && op != O_EXTRACT_MIN && op != O_EXTRACT_MAX; }
-        bool update_replaces() const override { return true; }
-        Res apply( int op, int key, int tag ) override
-        {
-            Res r;
-            switch ( op ) {
-            case O_INSERT:
-                r.r = s.insert( FItem( key, tag )) ? 1 : 0;
-                break;
-            case O_INSERT_F: {
-                int calls = 0;
-                r.r = s.insert( FItem( key, tag ), [&]( FItem& it ) { ++calls; r.key = it.key; } ) ? 1 : 0;
-                r.fcalls = calls;
-                break;
-            }
-            case O_UPDATE:
-            case O_UPDATE_NOINS: {
-                int calls = 0;
-                std::pair<bool, bool> x = s.update( FItem( key, tag ), [&]( FItem& cur, FItem* old ) {
-                    ++calls;
-                    r.fnew = old ? 0 : 1;
-                    r.tag = old ? old->tag : cur.tag;
-                    r.key = cur.key;
-                }, op == O_UPDATE );
-                r.fcalls = calls;
-                r.r = !x.first ? 0 : x.second ? 2 : 1;
-                if ( r.r == 2 )
-                    r.tag = tag;
-                break;
-            }
-            case O_EMPLACE:
-                r.r = s.emplace( key, tag ) ? 1 : 0;
-                break;
-            case O_ERASE:
-                r.r = s.erase( H( key )) ? 1 : 0;
-                break;
-            case O_ERASE_F: {
-                int calls = 0;
-                r.r = s.erase( H( key ), [&]( FItem const& it ) { ++calls; r.tag = it.tag; r.key = it.key; } ) ? 1 : 0;
-                r.fcalls = calls;
-                break;
-            }
-            case O_EXTRACT: {
-                FeldmanSet::guarded_ptr gp( s.extract( H( key )));
-                if ( gp ) {
-                    r.r = 1;
-                    r.tag = gp->tag;
-                    r.key = gp->key;
-                    hold_and_check( &*gp, hold );
-                }
-                break;
-            }
-            case O_GET: {
-                FeldmanSet::guarded_ptr gp( s.get( H( key )));
-                if ( gp ) {
-                    r.r = 1;
-                    r.tag = gp->tag;
-                    r.key = gp->key;
-                    hold_and_check( &*gp, hold );
-                }
-                break;
-            }
-            case O_FIND_F: {
-                int calls = 0;
-                r.r = s.find( H( key ), [&]( FItem& it ) { ++calls; r.tag = it.tag; r.key = it.key; } ) ? 1 : 0;
-                r.fcalls = calls;
-                break;
-            }
-            case O_CONTAINS:
-                r.r = s.contains( H( key )) ? 1 : 0;
-                break;
-            default:
-                r.unsupported = true;
-                break;
-            }
-            return r;
-        }
-        bool has_counter() const override { return true; }
-        size_t size() const override { return s.size(); }
-        bool empty() const override { return s.empty(); }
-        bool traverse( std::vector<int>& keys ) override
-        {
-            for ( auto it = s.begin(); it != s.end(); ++it )
-                keys.push_back( it->key );
-            return true;
-        }
-        void scan() override { HP::scan(); }
-    };
-    AdapterBase* mk_feldman( Case const& c )
-    {
-        params() = decode_params( c, CK_STRIPED_THRESHOLD );    // injective hashes only: the hash is the key
-        // head_bits >= 4 and array_bits >= 2 are enforced by the library: ask for the minimums (and one step above)
-        return new FeldmanAdapter( c, size_t( 4 + ( cfg_at( c, CF_INIT, 0 ) & 1 )), size_t( 2 + ( cfg_at( c, CF_PROBE, 0 ) & 1 )));
-    }
-}
-#endif
-
-namespace {
-#define RH_V( NAME, ... ) { NAME, mh::GC_NONE, 0, &fam_lockhash::__VA_ARGS__, false },
-#define RH_WB( NAME, ... ) { NAME, mh::GC_NONE, 0, &fam_lockhash::well_behaved<&fam_lockhash::__VA_ARGS__>, false },
-#define RH_DG( NAME, ... ) { NAME, mh::GC_NONE, 0, &fam_lockhash::degenerate<&fam_lockhash::__VA_ARGS__>, false },
-    const MapVariant kVariants[] = {
-#ifndef REHASH_BOOST_PART
-        // Cuckoo, clean shapes: both hash functions are bijections on the low bits (see decode_params)
-        RH_WB( "CuckooSet_list_eq_striping", mk_cuckoo_set<cus_list_eq_striping> )
-        RH_WB( "CuckooSet_list_cmp_refinable_storehash", mk_cuckoo_set<cus_list_cmp_refinable_sh> )
-        RH_WB( "CuckooSet_vector2_less_striping_storehash", mk_cuckoo_set<cus_vec2_less_striping_sh> )
-        RH_WB( "CuckooSet_vector4_eq_refinable", mk_cuckoo_set<cus_vec4_eq_refinable> )
-        RH_WB( "CuckooMap_list_less_refinable", mk_cuckoo_map<cum_list_less_refinable> )
-        RH_WB( "CuckooMap_vector2_eq_striping_storehash", mk_cuckoo_map<cum_vec2_eq_striping_sh> )
-        RH_WB( "ICuckooSet_list_base_eq_striping", mk_cuckoo_intrusive<CuNode_list0, icu_list_eq_striping> )
-        RH_WB( "ICuckooSet_list_base_less_refinable_storehash2", mk_cuckoo_intrusive<CuNode_list2, icu_list_less_refinable_sh2> )
-        RH_WB( "ICuckooSet_vector4_member_cmp_striping_storehash2", mk_cuckoo_intrusive<CuMNode_vec4_2, icu_mvec4_cmp_striping_sh2> )
-        // Cuckoo, degenerate shapes: one member constant / k & 1 / k & m / k >> s / k << s, the other one injective on the key
-        // space (possibly k << s). KNOWN to fail on the unchanged tree: CuckooSet::resize() drops an element when every
-        // candidate probe set of the new table is full (see the report / replays/C17)
-        RH_DG( "CuckooSet_degenerate_tuple", mk_cuckoo_set<cus_list_eq_striping> )
-        RH_DG( "CuckooSet_vector2_degenerate_tuple", mk_cuckoo_set<cus_vec2_less_striping_sh> )
-        RH_DG( "CuckooMap_degenerate_tuple", mk_cuckoo_map<cum_list_less_refinable> )
-        RH_DG( "ICuckooSet_degenerate_tuple", mk_cuckoo_intrusive<CuNode_list2, icu_list_less_refinable_sh2> )
-        // Striped over std containers
-        RH_V( "StripedSet_std_list_less_striping_LF1", mk_striped_set<B_std_list, RP_LF1, MX_S, O_LESS> )
-        RH_V( "StripedSet_std_list_cmp_refinable_T1_move", mk_striped_set<B_std_list, RP_T1, MX_R, O_CMP, O_MOVE> )
-        RH_V( "StripedSet_std_vector_cmp_refinable_LF0_copy", mk_striped_set<B_std_vector, RP_LF0, MX_R, O_CMP, O_COPY> )
-        RH_V( "StripedSet_std_vector_less_striping_T2_swap", mk_striped_set<B_std_vector, RP_T2, MX_S, O_LESS, O_SWAP> )
-        RH_V( "StripedSet_std_set_striping_RAT0_swap", mk_striped_set<B_std_set, RP_RAT0, MX_S, O_SWAP> )
-        RH_V( "StripedSet_std_unordered_set_refinable_T2", mk_striped_set<B_std_uset, RP_T2, MX_R> )
-        RH_V( "StripedMap_std_list_less_refinable_LF1", mk_striped_map<BM_std_list, RP_LF1, MX_R, O_LESS> )
-        RH_V( "StripedMap_std_map_striping_R8_copy", mk_striped_map<BM_std_map, RP_R8, MX_S, O_COPY> )
-        RH_V( "StripedMap_std_unordered_map_refinable_T1_swap", mk_striped_map<BM_std_umap, RP_T1, MX_R, O_SWAP> )
-        // SplitListSet / FeldmanHashSet
-        { "SplitListSet_michael_HP", GC_HP, SplitMichael::c_nHazardPtrCount, &mk_split<SplitMichael>, false },
-        { "SplitListSet_lazy_HP", GC_HP, SplitLazy::c_nHazardPtrCount, &mk_split<SplitLazy>, false },
-        { "FeldmanHashSet_HP", GC_HP, FeldmanSet::c_nHazardPtrCount, &mk_feldman, false },
-#else
-        RH_V( "StripedSet_boost_slist_less_striping_LF1", mk_striped_set<B_b_slist, RP_LF1, MX_S, O_LESS> )
-        RH_V( "StripedSet_boost_list_cmp_refinable_T1_move", mk_striped_set<B_b_list, RP_T1, MX_R, O_CMP, O_MOVE> )
-        RH_V( "StripedSet_boost_flat_set_striping_RAT0", mk_striped_set<B_b_flat_set, RP_RAT0, MX_S> )
-        RH_V( "StripedSet_boost_stable_vector_less_refinable_LF0_swap", mk_striped_set<B_b_stable_vector, RP_LF0, MX_R, O_LESS, O_SWAP> )
-        RH_V( "StripedSet_boost_vector_cmp_striping_T2_copy", mk_striped_set<B_b_vector, RP_T2, MX_S, O_CMP, O_COPY> )
-        RH_V( "StripedSet_boost_set_refinable_R8", mk_striped_set<B_b_set, RP_R8, MX_R> )
-        RH_V( "StripedSet_boost_unordered_set_striping_T1_copy", mk_striped_set<B_b_uset, RP_T1, MX_S, O_COPY> )
-        RH_V( "StripedMap_boost_slist_less_refinable_T1", mk_striped_map<BM_b_slist, RP_T1, MX_R, O_LESS> )
-        RH_V( "StripedMap_boost_list_cmp_striping_LF1_swap", mk_striped_map<BM_b_list, RP_LF1, MX_S, O_CMP, O_SWAP> )
-        RH_V( "StripedMap_boost_flat_map_refinable_R16", mk_striped_map<BM_b_flat_map, RP_R16, MX_R> )
-        RH_V( "StripedMap_boost_map_striping_T0_swap", mk_striped_map<BM_b_map, RP_T0, MX_S, O_SWAP> )
-        RH_V( "StripedMap_boost_unordered_map_refinable_LF0", mk_striped_map<BM_b_umap, RP_LF0, MX_R> )
-        RH_V( "IStripedSet_bi_list_less_striping_LF1", mk_striped_intrusive<N_bi_list, BI_list, RP_LF1, MX_S, O_LESS> )
-        RH_V( "IStripedSet_bi_slist_member_cmp_refinable_T1", mk_striped_intrusive<N_bi_slist, BI_slist, RP_T1, MX_R, O_CMP> )
-        RH_V( "IStripedSet_bi_set_striping_R8", mk_striped_intrusive<N_bi_set, BI_set, RP_R8, MX_S> )
-        RH_V( "IStripedSet_bi_avl_set_member_refinable_T2", mk_striped_intrusive<N_bi_avl, BI_avl_set, RP_T2, MX_R> )
-        RH_V( "IStripedSet_bi_sg_set_refinable_LF0", mk_striped_intrusive<N_bi_bs, BI_sg_set, RP_LF0, MX_R> )
-        RH_V( "IStripedSet_bi_splay_set_striping_RAT0", mk_striped_intrusive<N_bi_bs, BI_splay_set, RP_RAT0, MX_S> )
-        RH_V( "IStripedSet_bi_unordered_set_striping_T1", mk_striped_intrusive<N_bi_uset, BI_uset, RP_T1, MX_S, O_BUF8> )
-#endif
-    };
-#ifndef REHASH_BOOST_PART
-    const char* const kName = "rehash";
-#else
-    const char* const kName = "rehash_boost";
-#endif
-    const MapHarnessConfig kConfig = { kName, kVariants, sizeof( kVariants ) / sizeof( kVariants[0] ), 63, true, false };
-}
-
-namespace cdsverif {
-    Schema const& harness_schema()
-    {
-        static Schema s = []() {
-            // make_map_schema() evaluates 1 << (max_key + 1): build the schema for 30 keys and widen the key range afterwards
-            MapHarnessConfig small = kConfig;
-            small.max_key = 29;
-            Schema x = make_map_schema( small,
-                { { "init", 0, 3 }, { "probe", 0, 1 }, { "thr", 0, 3 }, { "free_kind", 0, 7 }, { "free_par", 0, 7 }, { "inj_kind", 0, 4 }, { "inj_par", 0, 3 },
-                    { "order", 0, 1 }, { "policy", 0, 1 } },
-                "sequential: the program hit a present key, an absent key and removed an element (class counters: resized = table doublings, "
-                "hash_degenerate / hash_injective = generated hash family)" );
-            for ( auto& o : x.ops )
-                if ( o.amax == small.max_key )
-                    o.amax = kConfig.max_key;
-            x.max_ops_quick = 120;
-            x.max_ops_thorough = 200;
-            // grow: more insertions than removals
-            x.ops[O_INSERT].weight = 12;
-            x.ops[O_UPDATE].weight = 6;
-            x.ops[O_EMPLACE].weight = 3;
-            return x;
-        }();
-        return s;
-    }
-    Verdict run_case( Case const& c )
-    {
-        fam_lockhash::oversize() = false;
-        Verdict v = run_map_case( kConfig, c );
-        if ( fam_lockhash::oversize()) {
-            v.kind = V_REJECT;
-            v.msg.clear();
-            v.classes["rejected_oversize"] += 1;
-        }
-        return v;
-    }
-}
+// C17 "resize and rehash never lose or duplicate elements for any hash functions" (sequential differential harness):
+// CuckooSet/Map + intrusive, StripedSet/Map over std containers, SplitListSet, FeldmanHashSet. See rehash_body.h.
+#include "rehash_body.h"
